@@ -183,6 +183,7 @@ pub open spec fn sp_step(rc: Rc, m: LzS, w: Win, upd: bool) -> Option<(StepStatu
 }
 
 /// rep-match family: short rep / rep0 long / rep1 / rep2 / rep3
+#[verifier::opaque]
 pub open spec fn sp_step_rep(rc: Rc, m: LzS, w: Win, pos_state: nat, upd: bool) -> Option<(StepStatus, Rc, LzS, Win)> {
     let s = m.state;
     match sp_bit(rc, m.is_rep_g0[s as int], upd) {
@@ -234,6 +235,7 @@ pub open spec fn sp_step_rep(rc: Rc, m: LzS, w: Win, pos_state: nat, upd: bool) 
 }
 
 /// len = RepLenDecoder.Decode(posState); state = UpdateState_Rep; copy len + 2 bytes from rep0 + 1
+#[verifier::opaque]
 pub open spec fn sp_step_replen(rc: Rc, m: LzS, w: Win, pos_state: nat, upd: bool) -> Option<(StepStatus, Rc, LzS, Win)> {
     match sp_len(rc, m.rep_len, pos_state, upd) {
         None => None,
@@ -249,6 +251,7 @@ pub open spec fn sp_step_replen(rc: Rc, m: LzS, w: Win, pos_state: nat, upd: boo
 /// new match: rep3 = rep2; rep2 = rep1; rep1 = rep0; len; state = UpdateState_Match; rep0 = distance;
 /// rep0 == 0xFFFFFFFF is the end marker (legal only if the range coder is finished: Code == 0 and
 /// no input left).
+#[verifier::opaque]
 pub open spec fn sp_step_match(rc: Rc, m: LzS, w: Win, pos_state: nat, upd: bool) -> Option<(StepStatus, Rc, LzS, Win)> {
     match sp_len(rc, m.len, pos_state, upd) {
         None => None,
@@ -330,6 +333,7 @@ pub proof fn lemma_step_extends(rc: Rc, m: LzS, w: Win, upd: bool)
         None => true,
     },
 {
+    reveal(sp_step_rep); reveal(sp_step_replen); reveal(sp_step_match);
     let d0 = m.rep[0] + 1;
     if dist_ok(d0, w.hist, w.maxd) && w.hist <= w.out.len() {
         lemma_lz_copy_prefix(w.out, 0, 1, d0 as int);
